@@ -351,11 +351,19 @@ pub fn judge_c03(rec: &mut Recorder, c: &HistCase, ex: Exec, _hello: &Value) -> 
     let mut named: BTreeSet<usize> = BTreeSet::new();
     let mut own_pages: BTreeSet<u64> = BTreeSet::new(); // trampoline pages currently live
     for (li, l) in o.lifetimes.iter().enumerate() {
+        let squat: BTreeSet<u64> = l.squat_pages.iter().copied().collect();
+        if !squat.is_empty() {
+            rec.class("foreign-code-on-released-trampoline-addresses");
+        }
         for (si, s) in l.steps.iter().enumerate() {
             if s.kind.starts_with("install") {
                 named.insert(s.t);
                 for t in &s.tramps {
-                    own_pages.insert(t.0 & !0xFFF);
+                    let page = t.0 & !0xFFF;
+                    if squat.contains(&page) || arena_pages.contains(&page) {
+                        return rec.fail(&sig("trampoline-mapped-over-foreign-code"), format!("lifetime {li} step {si} ({}): the injector's trampoline mapping {:#x} lies on a page that held somebody else's code (it had released that address at the end of an earlier lifetime); case {c:?}", s.kind, t.0));
+                    }
+                    own_pages.insert(page);
                 }
             }
             if let Some(d) = &s.diff {
@@ -398,7 +406,7 @@ pub fn judge_c03(rec: &mut Recorder, c: &HistCase, ex: Exec, _hello: &Value) -> 
             check_by(rec, &l.bystanders, &at)?;
         }
         if let Some(d) = &l.diff_vs_first {
-            if d.changed_total != 0 || !d.appeared.is_empty() || d.disappeared.iter().any(|p| !arena_pages.contains(p)) {
+            if d.changed_total != 0 || d.appeared.iter().any(|p| !squat.contains(p)) || d.disappeared.iter().any(|p| !arena_pages.contains(p)) {
                 return rec.fail(&sig("executable-memory-differs-after-lifetime"), format!("after lifetime {li} executable memory differs from the snapshot before the first injector: {} bytes changed (first {:x?}), appeared {:x?}, disappeared {:x?}; case {c:?}", d.changed_total, d.changed.first(), d.appeared, d.disappeared));
             }
         }
